@@ -279,3 +279,12 @@ def replay_ops(ctx):
         if v and v.get("input"):
             out.append((v.get("backend", "f64"), v["input"]))
     return out
+
+
+def ff(x):
+    """a Fraction as short decimal text for messages (never raises)"""
+    try:
+        return repr(float(x))
+    except (OverflowError, ValueError):
+        n, d = x.numerator, x.denominator
+        return f"~{'-' if n < 0 else ''}2^{abs(n).bit_length() - d.bit_length()}"
